@@ -259,6 +259,8 @@ func upcOp(a []string) string {
 		return "bad-op"
 	}
 	switch a[0] {
+	case "apil", "apir", "apim":
+		return upcAPIOp(a)
 	case "dec":
 		b, ok := unhex(a[1])
 		if !ok {
@@ -436,6 +438,12 @@ func oracleC18(op string, a []string) string {
 		return skip
 	}
 	switch a[0] {
+	case "apil", "apir", "apim":
+		r := withTimeout(func() string { return oracleC18API(a) })
+		if r == "panic" || r == "hang" || r == "bad-op" {
+			return "FAIL " + r
+		}
+		return r
 	case "dec", "unl", "unr":
 		r := withTimeout(func() string { return upcOp(a) })
 		if r == "panic" || r == "hang" || r == "bad-op" {
@@ -704,6 +712,7 @@ func (g *Gen) gSub() gSub {
 
 func genUePolicy(g *Gen, w *bufio.Writer) {
 	thorough := g.Tier == "thorough"
+	genUePolicyAPI(g, w, g.N*2)
 	// exhaustive short inputs to the three decoders
 	for _, op := range []string{"dec", "unl", "unr"} {
 		fmt.Fprintf(w, "upc %s -\n", op)
